@@ -107,7 +107,8 @@ def run(ctx):
                 "A: an edge cover of the dumped state graph is replayed on real generator objects sharing one definition (every next() "
                 "result compared with the model and with the single-packet parse; definition XML compared before/after). B: random "
                 "streams of 20-60 packets over 2-4 generators with random schedules validated by Trace_Generator. "
-                "distinct = (streams, options, schedule).")
+                "Raw packets taken from the framer, a headers-only generator and yielded items are each "
+                "parsed on their own twice and compared with the single-packet result. distinct = (streams, options, schedule).")
     ctx.assumptions = ["packets whose decoding raises (other than unrecognized) end the generator: not used in streams (outside C11)"]
     d = definition()
     pool = make_pool(rng, 3 if q else 8)
@@ -282,6 +283,7 @@ def run(ctx):
     # ---- segment combining across interleaved generators (Segments o Decode o Generator): the per-APID segment table
     # must belong to one generator; a generator suspended in the middle of a group must not see another one's segments
     seg_section(ctx, d, dobj, rng, q)
+    reparse_section(ctx, d, dobj, pool, singles)
 
     # ---- parsing never modifies the definition
     xml_after = etree.tostring(dobj.to_xml_tree())
@@ -290,6 +292,50 @@ def run(ctx):
         ctx.violation("C11/definition-modified", "the definition's XML / inheritor lists changed while parsing", {})
     ctx.exhaustive = True
     ctx.sample({"direction": "code->spec", "generators": len(recs[0][0]), "events": recs[0][1][:10]}, limit=4)
+
+
+def reparse_section(ctx, d, dobj, pool, singles):
+    """'Parsing each packet on its own' is repeatable and does not depend on where the raw packet came from: the raw packet objects
+    handed out by the framer, by a headers-only generator and inside yielded packets / error objects are each parsed on their own,
+    twice, and must give the single-packet result both times (an earlier parse or generator must not leave anything behind in them)."""
+    import warnings
+    from space_packet_parser import packets
+    from space_packet_parser.exceptions import UnrecognizedPacketTypeError
+    n = 0
+    stream = b"".join(bytes(p["bytes"]) for p in pool)
+    with warnings.catch_warnings():
+        warnings.simplefilter("ignore")
+        origins = {
+            "framer": list(packets.ccsds_generator(stream)),
+            "headers-only generator": [(it if isinstance(it, packets.RawPacketData) else it.raw_data)
+                                       for it in dobj.packet_generator(stream, ccsds_headers_only=True, root_container_name="ROOT")],
+            "yielded items": [(it.partial_data.raw_data if isinstance(it, UnrecognizedPacketTypeError) else it.raw_data)
+                              for it in dobj.packet_generator(stream, yield_unrecognized_packet_errors=True, root_container_name="ROOT")],
+        }
+        for origin, raws in origins.items():
+            if len(raws) != len(pool):
+                ctx.violation("C11/reparse/count", f"{origin}: {len(raws)} raw packets for a stream of {len(pool)}", {"origin": origin})
+                continue
+            for p, raw in zip(pool, raws):
+                want = singles[p["pid"]]
+                for rep in (1, 2):
+                    pk = packets.CCSDSPacket(raw_data=raw)
+                    try:
+                        dobj.parse_ccsds_packet(pk, root_container_name="ROOT")
+                        got, items = "ok", typed_items(d, pk)
+                    except UnrecognizedPacketTypeError as e:
+                        got, items = "unrec", typed_items(d, e.partial_data or {})
+                    except Exception as e:  # noqa: BLE001
+                        got, items = f"raised {type(e).__name__}", []
+                    n += 1
+                    ctx.count(("reparse", origin, p["pid"], rep))
+                    if got != want["status"] or items != want["items"]:
+                        ctx.violation(f"C11/reparse/{origin.split()[0]}/parse-{rep}",
+                                      f"raw packet from the {origin}, parse number {rep} on its own: {got} with {len(items)} items; the packet's "
+                                      f"bytes parsed on their own give {want['status']} with {len(want['items'])} items",
+                                      {"origin": origin, "packet": p["bytes"], "parse": rep})
+                        break
+    ctx.extra["raw_packet_reparses"] = n
 
 
 def seg_section(ctx, d, dobj, rng, q):
